@@ -38,10 +38,13 @@ template<typename DT, typename IT> void cycle_case(Tape& t, Ctx& c, int max_leve
   {
     Step& st = steps[s];
     st.cyc = t.pick({2, 3, 3});
-    switch(t.pick({3, 2, 1}))
+    switch(t.pick({4, 4, 1}))
     {
     case 0: st.top = 0; st.crs = nlev - 1; break;
-    case 1: st.top = t.range(0, nlev - 1); st.crs = t.range(st.top, nlev - 1); break;
+    case 1: // proper sub-range with at least two levels where the hierarchy has them
+      st.top = t.range(0, std::max(0, nlev - 2)); st.crs = nlev >= 2 ? t.range(st.top + 1, nlev - 1) : st.top;
+      if(st.top == 0 && st.crs == nlev - 1 && nlev >= 3) { if(t.flag()) ++st.top; else --st.crs; }
+      break;
     default: st.top = st.crs = t.range(0, nlev - 1); break;
     }
     st.neg_crs = t.flag(1, 3);
@@ -85,7 +88,11 @@ template<typename DT, typename IT> void cycle_case(Tape& t, Ctx& c, int max_leve
 
   // ---- reference first (it also tells whether a step is in the zero-correction class of the known finding)
   Ref ref(RL, unit_roundoff<DT>());
-  struct Expect { EV x; std::vector<std::string> tr, trh; bool illcond, zero_cor; std::vector<double> omegas; };
+  struct Expect { EV x; std::vector<std::string> tr, trh; bool illcond, zero_cor; std::vector<double> omegas; bool range_ok; };
+  // DESIGN 2.11: magnitudes are kept where over-/underflow (about which the property is silent) cannot fake a failure.
+  // Divergent combinations (e.g. restriction 2*P^T in a W-cycle over many levels) exist by construction of the domain;
+  // a step whose intermediate values leave [0, sqrt(max)/1e4] is compared by trace only.
+  const LD range_limit = sqrtl((LD)std::numeric_limits<DT>::max()) * 1e-4L;
   std::vector<Expect> exp((size_t)nsteps);
   bool any_adapt = false, any_zero_cor = false;
   for(int s = 0; s < nsteps; ++s)
@@ -96,7 +103,7 @@ template<typename DT, typename IT> void cycle_case(Tape& t, Ctx& c, int max_leve
     // known finding c09-adapt-zero-cor: adaptive coarse grid correction with an exactly vanishing correction divides 0/0.
     // Steering: such a step is run with the fixed step length instead (the class is exactly "adaptive && correction == 0").
     if(ref.zero_cor && c.excl("c09-adapt-zero-cor")) { st.adapt = 0; x = ref.run(st.cyc, st.top, st.crs, st.adapt, d); }
-    exp[s] = Expect{ x, ref.tr, ref.trh, ref.illcond, ref.zero_cor, ref.omegas };
+    exp[s] = Expect{ x, ref.tr, ref.trh, ref.illcond, ref.zero_cor, ref.omegas, ref.maxabs <= range_limit };
     any_adapt = any_adapt || st.adapt != 0; any_zero_cor = any_zero_cor || ref.zero_cor;
   }
 
@@ -132,7 +139,7 @@ template<typename DT, typename IT> void cycle_case(Tape& t, Ctx& c, int max_leve
     }
     if((Lv >= 2 && st.cyc != 0) || (Lv >= 1 && (!(st.top == 0 && st.crs == nlev - 1) || missing))) nt_shape = true;
     const Expect& e = exp[s];
-    if(e.zero_cor) c.label("numeric:zero-correction"); else if(e.illcond) c.label("numeric:omega-illconditioned");
+    if(!e.range_ok) c.label("numeric:out-of-range(divergent)"); else if(e.zero_cor) c.label("numeric:zero-correction"); else if(e.illcond) c.label("numeric:omega-illconditioned");
     else
     {
       any_compared = true; LD mx = 0, me = 0; for(int i = 0; i < e.x.n(); ++i) { mx = std::max(mx, fabsl(e.x.v[i])); me = std::max(me, e.x.e[i]); }
@@ -186,7 +193,7 @@ template<typename DT, typename IT> void cycle_case(Tape& t, Ctx& c, int max_leve
       }
     }
     // (3) the result vector
-    if(e.illcond) continue;
+    if(e.illcond || !e.range_ok) continue;
     for(int i = 0; i < n; ++i)
     {
       LD g = (LD)cor.elements()[i]; LD tol = e.x.e[(size_t)i] + 16.0L * (LD)std::numeric_limits<DT>::min();
@@ -206,6 +213,6 @@ int main(int argc, char** argv)
   tg.push_back({"cycle", [](Tape& t, Ctx& c) {
     try { if(t.pick({3, 1}) == 0) cycle_case<double, std::uint64_t>(t, c, 7, 4); else cycle_case<float, std::uint32_t>(t, c, 7, 4); }
     catch(Fail& f) { if(const char* dbg = getenv("C09_DEBUG_FAIL")) { FILE* fp = fopen(dbg, "a"); if(fp) { fprintf(fp, "%s\n{\"target\":\"cycle\",\"size\":%d,\"tape\":[", f.sym.c_str(), t.size); for(size_t k = 0; k < t.v->size() && k < t.pos; ++k) fprintf(fp, "%s%u", k ? "," : "", (*t.v)[k]); fprintf(fp, "]}\n"); fclose(fp); } } throw; }
-  }, 160, 8, 20000});
+  }, 100, 2, 20000});
   return main_impl(argc, argv, tg);
 }
